@@ -16,7 +16,21 @@
 #include <stdint.h>
 #include <stddef.h>
 
-#ifndef VP_NATIVE
+#if defined(VP_SEQIR)
+/* Engine S front half: the harness is compiled by clang to LLVM IR; the
+ * vocabulary is kept as calls that vp/ll2c.py re-emits in the generated C. */
+extern void __vp_assert(int c, const char *msg);
+extern void __vp_assume(int c);
+extern void __vp_witness(const char *tag);
+extern long long __vp_in(void);
+#define IN_LL()           __vp_in()
+#define VASSERT(c)        __vp_assert(!!(c), #c)
+#define VASSERTM(c, msg)  __vp_assert(!!(c), msg)
+#define VASSUME(c)        __vp_assume(!!(c))
+#define VWITNESS(tag)     __vp_witness(tag)
+#define VP_ATOMIC_BEGIN() do { } while (0)
+#define VP_ATOMIC_END()   do { } while (0)
+#elif !defined(VP_NATIVE)
 long long nondet_longlong(void);
 /* every input goes through vp_in_v so that the driver can recover the drawn
  * values, in order, from the assignments to vp_in_v in the CBMC trace */
